@@ -26,16 +26,27 @@
 (*                         nothing but "ok" if wf /\ same /\ rel = future  *)
 (*  (b) "a well-formed signature whose expiry has passed is reported as    *)
 (*      expired, everything else as missing or invalid"                    *)
-(*                         Allowed: wf /\ past -> {expired};               *)
-(*                         other failures -> Fail = {missing, invalid}     *)
-(*      The statement does not say which of missing/invalid, so both are   *)
-(*      allowed; "at" the expiry second the statement ("before") and the   *)
-(*      two implementations differ, so rel = near allows both outcomes.    *)
+(*                         Allowed: an UNCHANGED signed locator presented  *)
+(*                         after its expiry -> {expired}.                  *)
+(*      Where the statement leaves the class open the contract takes any   *)
+(*      failing class: it does not say which of missing/invalid; a locator *)
+(*      that is both perturbed (forged, or a hex letter upper-cased, which *)
+(*      a stricter verifier may call malformed) AND expired may be         *)
+(*      reported as expired or as missing/invalid (a verifier checking the *)
+(*      HMAC first is as good); "at" the expiry second the statement       *)
+(*      ("before") and the two implementations differ, so rel = near       *)
+(*      allows both outcomes.  keepstore's wrapper is judged only on       *)
+(*      accept/refuse (VerifyKs): which refusal it reports is drift.       *)
 (*  (c) "the signature is the lowercase hex HMAC-SHA1 under the key of     *)
 (*      hash@token@expiry-hex@ttl-hex exactly as the API server computes   *)
-(*      it"                SignLoc: signature and expiry fields equal the  *)
-(*                         harness's reference (written from blob.rb), the *)
-(*                         rest of the locator is unchanged                *)
+(*      it"                SignLoc: the output carries a signature hint    *)
+(*                         whose signature and expiry fields equal the     *)
+(*                         harness's reference (written from blob.rb);     *)
+(*                         WHERE the hint is placed is not judged.         *)
+(*                         PutLoc: a signature on a locator returned by    *)
+(*                         keepstore PUT equals the reference HMAC for the *)
+(*                         fields that locator carries (which expiry PUT   *)
+(*                         chooses and the locator's layout: not judged).  *)
 (*  (d) "With blob signing enabled keepstore returns block data only for   *)
 (*      locators carrying such a valid unexpired signature for the         *)
 (*      requesting token"  KsGet: success status => "ok" allowed           *)
@@ -54,11 +65,15 @@ Results == {"ok", "expired", "missing", "invalid", "denied"}
 Fail    == {"missing", "invalid", "denied"}
 Rels    == {"past", "near", "future"}
 
+AnyFailure == Fail \cup {"expired"}
+
 Allowed(i, rel) ==
-    IF ~i.wf THEN Fail
-    ELSE IF rel = "past" THEN {"expired"}
-    ELSE IF rel = "future" THEN (IF i.same THEN {"ok"} ELSE Fail)
-    ELSE (IF i.same THEN {"ok", "expired"} ELSE Fail \cup {"expired"})
+    IF i.wf /\ i.same
+    THEN (IF rel = "past" THEN {"expired"}
+          ELSE IF rel = "future" THEN {"ok"}
+          ELSE {"ok", "expired"})
+    ELSE IF ~i.wf THEN Fail                       \* no well-formed signature: cannot be "expired"
+    ELSE (IF rel = "future" THEN Fail ELSE AnyFailure)   \* perturbed; if (possibly) expired, any failure
 
 CInit(wf, same) == inp = [wf |-> wf, same |-> same]
 
@@ -69,15 +84,26 @@ Verify(rel, res) == /\ rel \in Rels
 
 Success(status) == status >= 200 /\ status < 300
 
+(* keepstore's own VerifySignature wrapper: judged on accept / refuse only. *)
+VerifyKs(rel, ok) == /\ rel \in Rels
+                     /\ ok => "ok" \in Allowed(inp, rel)
+                     /\ ~ok => Allowed(inp, rel) # {"ok"}
+                     /\ UNCHANGED inp
+
 (* keepstore answered a GET of the presented locator (blob signing on). *)
 KsGet(rel, status) == /\ rel \in Rels
                       /\ Success(status) => "ok" \in Allowed(inp, rel)
                       /\ UNCHANGED inp
 
-(* SignLocator returned: prefix = the input locator is a prefix of the     *)
-(* output, sig/exp = the appended hint's fields equal the reference.       *)
-SignLoc(prefixok, sigok, expok) == /\ prefixok /\ sigok /\ expok
-                                   /\ UNCHANGED inp
+(* SignLocator returned a locator carrying a signature hint: sig/exp = the *)
+(* hint's fields equal the reference.                                      *)
+SignLoc(sigok, expok) == /\ sigok /\ expok
+                         /\ UNCHANGED inp
+
+(* keepstore PUT returned a locator carrying a signature hint: the         *)
+(* signature equals the reference HMAC over the fields the locator carries *)
+PutLoc(sigok) == /\ sigok
+                 /\ UNCHANGED inp
 
 IsA(x) == x = "A"
 NonA(s) == SelectSeq(s, LAMBDA x : ~IsA(x))
@@ -85,11 +111,13 @@ OnlyA(s) == SelectSeq(s, IsA)
 
 (* One block locator token of a signed manifest: in/out are the hint lists *)
 (* after the hash, every +A... hint written as "A", every other hint       *)
-(* (size included) as its full text.  sigok = every +A hint of the output  *)
-(* is the reference signature for the signing parameters.                  *)
+(* (size included) as its full text.  sigok = EVERY +A hint of the output  *)
+(* is the reference signature for the signing parameters (so no old        *)
+(* signature survives, whether signatures are replaced in place or         *)
+(* stripped and one appended).                                             *)
 SignTok(in, out, sigok) == /\ NonA(out) = NonA(in)              \* other hints unchanged, in order
-                           /\ Len(OnlyA(out)) = 1               \* the signature is replaced, not added to
-                           /\ sigok
+                           /\ Len(OnlyA(out)) >= 1              \* every locator leaves signed ...
+                           /\ sigok                              \* ... and only with fresh signatures
                            /\ UNCHANGED inp
 
 (* The manifest as a whole: whitespace runs and all tokens that are not    *)
